@@ -50,6 +50,40 @@ func newTableParser(bookName, alias, relSlashPath string, gen *Generator) *table
 	return p
 }
 
+// mergeBookOptions records the book-level ("#" row of the metasheet) header
+// options, which take precedence over the global ones, so that confgen reads
+// the same header rows and separators as protogen did.
+func (p *tableParser) mergeBookOptions(bookOpts *tableaupb.WorkbookOptions) {
+	if bookOpts == nil {
+		return
+	}
+	opts := p.wb.Options
+	if bookOpts.Namerow != 0 {
+		opts.Namerow = bookOpts.Namerow
+	}
+	if bookOpts.Typerow != 0 {
+		opts.Typerow = bookOpts.Typerow
+	}
+	if bookOpts.Noterow != 0 {
+		opts.Noterow = bookOpts.Noterow
+	}
+	if bookOpts.Datarow != 0 {
+		opts.Datarow = bookOpts.Datarow
+	}
+	if bookOpts.Nameline != 0 {
+		opts.Nameline = bookOpts.Nameline
+	}
+	if bookOpts.Typeline != 0 {
+		opts.Typeline = bookOpts.Typeline
+	}
+	if bookOpts.Sep != "" {
+		opts.Sep = bookOpts.Sep
+	}
+	if bookOpts.Subsep != "" {
+		opts.Subsep = bookOpts.Subsep
+	}
+}
+
 func (p *tableParser) GetProtoFilePath() string {
 	return genProtoFilePath(p.wb.Name, p.gen.OutputOpt.FilenameSuffix)
 }
